@@ -900,7 +900,9 @@ def rule_t3(chk: Check, C: Classes):
 PURE_METHODS = {"add", "update", "union", "append", "extend", "match", "fullmatch", "search", "groups", "group", "span", "end", "start",
                 "encode", "decode", "lower", "upper", "strip", "lstrip", "rstrip", "startswith", "endswith", "isdigit", "isalpha",
                 "isspace", "isidentifier", "isascii", "join", "split", "replace", "find", "rfind", "index", "count", "get", "items", "keys",
-                "values", "pop", "copy", "format", "partition", "rpartition", "splitlines", "removeprefix", "removesuffix", "casefold"}
+                "values", "pop", "copy", "format", "partition", "rpartition", "splitlines", "removeprefix", "removesuffix", "casefold",
+                "setdefault", "clear", "insert", "remove", "discard", "intersection", "difference", "is_exact_type", "is_next_to", "_replace",
+                "loc", "loc_start", "loc_end", "isupper", "islower", "title", "zfill", "expandtabs", "dedent"}
 
 
 class _Ret(Exception):
@@ -924,6 +926,14 @@ class Marker(Exception):
     """Raised by a fake collaborator handed to evaluated code (its error-raising helper): passes through the evaluator."""
 
 
+class Raised(Marker):
+    """The evaluated code executed a `raise` (or a failing `assert`): exception class name and arguments."""
+
+    def __init__(self, cls, args=()):
+        super().__init__(f"{cls}{tuple(args)}")
+        self.cls, self.args_ = cls, tuple(args)
+
+
 class Crash(EvalError):
     """The evaluated code itself raised on the given input (as opposed to leaving the evaluable subset)."""
 
@@ -937,7 +947,7 @@ def _mini_eval(fn: ast.FunctionDef, env: dict, allowed_calls: set[str], max_step
     SAFE = {"set": set, "any": any, "all": all, "bool": bool, "len": len, "frozenset": frozenset, "list": list, "isinstance": isinstance,
             "tuple": tuple, "repr": repr, "str": str, "min": min, "max": max, "sorted": sorted, "enumerate": enumerate, "zip": zip,
             "range": range, "dict": dict, "int": int, "float": float, "complex": complex, "bytes": bytes, "ord": ord, "chr": chr,
-            "abs": abs, "sum": sum, "type": type}
+            "abs": abs, "sum": sum, "type": type, "next": next, "iter": iter}
 
     def check(e):
         for n in ast.walk(e):
@@ -1087,6 +1097,18 @@ def _mini_eval(fn: ast.FunctionDef, env: dict, allowed_calls: set[str], max_step
                             raise
                 finally:
                     run(st.finalbody)
+            elif isinstance(st, ast.Raise):
+                if st.exc is None:
+                    raise EvalError("bare raise")
+                v = ev(st.exc)
+                if isinstance(v, tuple) and len(v) == 3 and v[0] == "exc":
+                    raise Raised(v[1], v[2])
+                if isinstance(v, BaseException):
+                    raise Raised(type(v).__name__, v.args)
+                raise EvalError("raise of a value the rule did not supply")
+            elif isinstance(st, ast.Assert):
+                if not ev(st.test):
+                    raise Raised("AssertionError", ())
             elif isinstance(st, ast.Return):
                 raise _Ret(ev(st.value) if st.value is not None else None)
             elif isinstance(st, ast.Break):
@@ -1131,7 +1153,9 @@ class SourceSelf:
             allowed = set(self._m) | set(self._p)
 
             def call(*args, **kw):
-                env = dict(zip(params, (self,) + args))
+                env = dict(self.__dict__.get("_env_extra", {}))
+                static = any(norm_stmt(d) == "staticmethod" for d in fn.decorator_list)
+                env.update(zip(params, args if static else (self,) + args))
                 if fn.args.vararg is not None:
                     env[fn.args.vararg.arg] = tuple(args[len(params) - 1:])
                 env.update(kw)
@@ -1504,6 +1528,17 @@ def module_pure_constants(rel: str) -> dict:
         try:
             out[tgt] = ast.literal_eval(val)
             continue
+        except Exception:
+            pass
+        # a pure expression over literals, whitelisted builtins and the constants folded so far (`frozenset(TABLE.values())`)
+        try:
+            from .. import constfold as _cf
+            ver = _cf._Verifier(set(out), set())
+            if ver.ok_expr(val, set()):
+                ns = {"__builtins__": dict(_cf.SAFE_BUILTINS)}
+                ns.update(out)
+                out[tgt] = eval(compile(ast.fix_missing_locations(ast.Expression(val)), "<module constant>", "eval"), ns)  # noqa: S307
+                continue
         except Exception:
             pass
         if isinstance(val, ast.Call) and norm_stmt(val.func) in ("re.compile", "_re.compile") and val.args and not val.keywords:
